@@ -215,6 +215,8 @@ macro_rules! prime_ops {
             "le" => return ok1(Val::Bool(a(0)? <= a(1)?)),
             "ge" => return ok1(Val::Bool(a(0)? >= a(1)?)),
             "max" => return ok1($wrap(::std::cmp::max(a(0)?, a(1)?))),
+            "min" => return ok1($wrap(::std::cmp::min(a(0)?, a(1)?))),
+            "clamp" => return ok1($wrap(a(0)?.clamp(a(1)?, a(2)?))),
             "from_repr" => {
                 return Ok(match <$F>::from_repr($getr(arg($args, 0)?)?) {
                     Ok(v) => Out::Ok(vec![$wrap(v)]),
@@ -288,6 +290,8 @@ pub fn run(fam0: &str, name: &str, args: &[Val]) -> R<Out> {
                 "le" => return ok1(Val::Bool(a(0)? <= a(1)?)),
                 "ge" => return ok1(Val::Bool(a(0)? >= a(1)?)),
                 "max" => return ok1(Val::Fq2(::std::cmp::max(a(0)?, a(1)?))),
+                "min" => return ok1(Val::Fq2(::std::cmp::min(a(0)?, a(1)?))),
+                "clamp" => return ok1(Val::Fq2(a(0)?.clamp(a(1)?, a(2)?))),
                 "sqrt" => {
                     return Ok(match a(0)?.sqrt() {
                         Some(v) => Out::Ok(vec![Val::Fq2(v)]),
